@@ -268,13 +268,18 @@ func runNative(cases []*replayCase, sh *Shared, pathMap map[string]string, tmp s
 		ovData, _ := json.Marshal(map[string]interface{}{"Replace": repl})
 		ovFile := filepath.Join(tmp, "overlay_"+sanitize(pd)+".json")
 		os.WriteFile(ovFile, ovData, 0o644)
-		cmd := exec.Command("go", "test", "-vet=off", "-count=1", "-timeout", "600s", "-run", "^TestVerifReplay$", "-overlay", ovFile, ".")
+		args := []string{"test", "-vet=off", "-count=1", "-timeout", "600s", "-run", "^TestVerifReplay$", "-overlay", ovFile}
+		if nativeRaceFlag {
+			args = append(args, "-race")
+		}
+		cmd := exec.Command("go", append(args, ".")...)
 		cmd.Dir = filepath.Join(repoRoot, pd)
 		// scratch files of the replayed code (real databases of the storage back ends) are removed with tmp
 		os.MkdirAll(filepath.Join(dir, "tmp"), 0o755)
 		cmd.Env = append(os.Environ(), "VERIF_REPLAY_DIR="+dir, "TMPDIR="+filepath.Join(dir, "tmp"), "GOFLAGS=-mod=mod", "GOPROXY=off", "GOSUMDB=off", "GOTOOLCHAIN=local")
 		out, err := cmd.CombinedOutput()
-		if err != nil {
+		nativeLastOutput = string(out)
+		if err != nil && !(nativeRaceFlag && strings.Contains(string(out), "DATA RACE")) {
 			return fmt.Errorf("native replay build/run failed in %s: %v\n%s", pd, err, tail(string(out), 3000))
 		}
 		for _, c := range cs {
@@ -287,6 +292,49 @@ func runNative(cases []*replayCase, sh *Shared, pathMap map[string]string, tmp s
 		}
 	}
 	return nil
+}
+
+// nativeRaceFlag makes runNative build and run the replay under the Go race detector; nativeLastOutput keeps
+// the test output of the last native run (the detector's reports are read from it).
+var nativeRaceFlag bool
+var nativeLastOutput string
+
+// raceConfirm replays a race counterexample natively under `go test -race` a few times and looks for a report
+// of the Go race detector that names both functions of the engine's report.
+func raceConfirm(c *replayCase, v *Violation, sh *Shared, pathMap map[string]string, tmp string, allHarness map[string][]string) string {
+	names := []string{}
+	if i := strings.LastIndex(v.Label, ":"); i >= 0 {
+		for _, f := range strings.Split(v.Label[i+1:], "|") {
+			// (*mochi.Client).Stop -> Stop ; mochi.(*Server).x$1 -> x
+			f = strings.TrimRight(f, "$0123456789")
+			if j := strings.LastIndex(f, "."); j >= 0 {
+				f = f[j+1:]
+			}
+			names = append(names, f)
+		}
+	}
+	nativeRaceFlag = true
+	defer func() { nativeRaceFlag = false }()
+	tries := 3
+	for t := 0; t < tries; t++ {
+		one := []*replayCase{{pkgdir: c.pkgdir, harness: c.harness, script: c.script, params: c.params}}
+		if err := runNative(one, sh, pathMap, tmp, allHarness); err != nil {
+			return "race-detector replay could not be built or run: " + tail(err.Error(), 200)
+		}
+		out := nativeLastOutput
+		for _, rep := range strings.Split(out, "WARNING: DATA RACE")[1:] {
+			all := true
+			for _, n := range names {
+				if !strings.Contains(rep, "."+n+"(") && !strings.Contains(rep, ")."+n+"(") {
+					all = false
+				}
+			}
+			if all {
+				return "confirmed by the Go race detector (go test -race replay)"
+			}
+		}
+	}
+	return fmt.Sprintf("not observed by the Go race detector in %d native replays (schedule-dependent); engine evidence: the two accesses and the vector clocks of the path", tries)
 }
 
 func tail(s string, n int) string {
@@ -464,7 +512,9 @@ func runCheck(id, tier string) int {
 			vr := &violRef{hr: hr, v: v}
 			if v.Script != nil || v.Kind == "lock" {
 				vr.c = &replayCase{pkgdir: hr.Spec.Pkg, harness: hr.Spec.Fn, script: v.Script, params: hr.Spec.Params}
-				if v.Kind != "lock" {
+				if v.Kind == "race" {
+					// replayed separately under the Go race detector (go test -race)
+				} else if v.Kind != "lock" {
 					cases = append(cases, vr.c)
 				} else {
 					vr.c = nil
@@ -514,8 +564,14 @@ func runCheck(id, tier string) int {
 	var sampleViol []map[string]interface{}
 	nviol := 0
 	var lockEdgeList map[string]string
+	plantedFound := map[string]bool{}
 	for _, vr := range viols {
 		v := vr.v
+		if v.Kind == "race" && vr.hr.Spec.Params["RACE_HARNESS"] == 1 {
+			// the control harness plants a race in its own code: finding it shows the analysis is alive
+			plantedFound[vr.hr.Spec.Fn] = true
+			continue
+		}
 		isKnown := known[v.Harness+"/"+v.Label]
 		status := "confirmed"
 		if vr.c != nil && vr.c.out != nil {
@@ -542,6 +598,11 @@ func runCheck(id, tier string) int {
 				} else {
 					mismatches = append(mismatches, fmt.Sprintf("violation %s/%s not reproduced natively: failed=%q panic=%q desync=%q", v.Harness, v.Label, o.Failed, o.Panic, o.Desync))
 				}
+			}
+		} else if v.Kind == "race" {
+			status = "happens-before analysis of the explored path"
+			if vr.c != nil && os.Getenv("VERIF_NO_REPLAY") == "" && !isKnown {
+				status = raceConfirm(vr.c, v, sh, pathMap, tmp, allHarness)
 			}
 		} else if v.Kind == "lock" {
 			status = "path-fact (lock tracker)"
@@ -617,6 +678,9 @@ func runCheck(id, tier string) int {
 		}
 		if len(hr.Reach) == 0 {
 			broken = append(broken, hr.Spec.Fn+": no vReach label reached (vacuous harness)")
+		}
+		if hr.Spec.Params["RACE_HARNESS"] == 1 && !plantedFound[hr.Spec.Fn] {
+			broken = append(broken, hr.Spec.Fn+": the race analysis did not report the race planted in the control harness")
 		}
 	}
 	for _, m := range mismatches {
